@@ -452,7 +452,8 @@ func mpSources(w *mpWS) (map[string]string, []string, bool) {
 
 func mpCompileStable(src map[string]string, names []string) ([]*descriptorpb.FileDescriptorProto, error) {
 	c := protocompile.Compiler{
-		Resolver:       &protocompile.SourceResolver{Accessor: protocompile.SourceAccessorFromMap(src)},
+		// the workspace's own files first; google/protobuf/*.proto from the standard imports
+		Resolver:       protocompile.WithStandardImports(&protocompile.SourceResolver{Accessor: protocompile.SourceAccessorFromMap(src)}),
 		MaxParallelism: 1,
 	}
 	res, err := c.Compile(context.Background(), names...)
@@ -965,6 +966,15 @@ func mpNote(op string) string {
 		return "protoset-laws"
 	}
 	if len(t) >= 3 && t[1] == "Q" {
+		if strings.HasPrefix(t[2], "synth:") {
+			// synth:<F>:<kind>=<name>[:<kind>=<name>] -> family + kinds
+			p := strings.Split(t[2], ":")
+			c := "synth-family"
+			for _, q := range p[2:] {
+				c += ":" + strings.SplitN(q, "=", 2)[0]
+			}
+			return c
+		}
 		if strings.HasPrefix(t[2], "anchor:") {
 			p := strings.Split(t[2], ":")
 			if len(p) == 5 {
